@@ -1962,3 +1962,116 @@ Proof.
   eapply Forall2_impl_in; [|exact HF]. intros F F' _ ((E & (pr' & Hg & Hm) & Ag) & Hc).
   split; [|exact Hc]. unfold star_done. rewrite Hlast. split; [exact E|]. split; [eauto|exact Ag].
 Qed.
+
+(* ================================================================== *)
+(* example star (used by the non-vacuity Examples of Props/C10.v)      *)
+(* ================================================================== *)
+
+(* leader 1 (term 2, entries 1..5 of terms 1,1,2,2,2, nothing committed), follower 2
+   (entries 1..3 of terms 1,1,1: entry 3 diverges) tracked as a PAUSED probe at next_idx 5,
+   follower 3 (entries 1..2) tracked as Replicate with a FULL window of stale indexes *)
+Definition sp_cs : conf_state := mkCS [1; 2; 3] [] [] [] false.
+Definition sp_prs : tracker :=
+  mkTr [(1, mkPr 5 6 Replicate false 0 0 true (Inflights.new 256) 0 0);
+        (2, xp_pr_probe); (3, xp_pr_repl)]
+       (mkConf [1; 2; 3] [] [] [] false) [] 256 false.
+Definition sp_L : raft :=
+  mkRaft 2 1 1 [] xp_logL 256 1000 0 Leader true 1 None 0 (ro_new 0) 0 0
+         false false false false false 2 10 15 10 20 0%Z u64_max 0 5 u64_max
+         sp_prs [] [] None.
+Definition sp_storeF3 : MemStorage.mem :=
+  mkMem (mkHS 2 1 0) sp_cs [xp_ent 1 1; xp_ent 2 1] 0 0 false false None.
+Definition sp_logF3 : raft_log := mkLog sp_storeF3 (u_new 3) 0 2 0 0.
+Definition sp_F2 : raft := xp_F.
+Definition sp_F3 : raft :=
+  mkRaft 2 1 3 [] sp_logF3 256 1000 0 Follower true 1 None 0 (ro_new 0) 0 0
+         false false false false false 2 10 15 10 20 0%Z u64_max 0 0 u64_max
+         sp_prs [] [] None.
+
+Lemma sp_storeF3_inv : SInv sp_storeF3.
+Proof. unfold MemStorageProofs.RepInv, next_of, first_of, sp_storeF3, u64_max. cbn. repeat split; lia. Qed.
+
+Lemma sp_logF3_inv : RepInv false sp_logF3.
+Proof.
+  destruct (log_new_ok sp_storeF3 0 sp_storeF3_inv eq_refl) as (lg & Hl & Hr & _).
+  assert (E : log_new sp_storeF3 0 = Ok sp_logF3) by reflexivity.
+  rewrite E in Hl. inversion Hl; subst lg. exact Hr.
+Qed.
+
+Lemma sp_agree3 : Agree (abs xp_logL) (abs sp_logF3) 0 2.
+Proof.
+  constructor.
+  - lia.
+  - vm_compute. discriminate.
+  - vm_compute. discriminate.
+  - intros i Hi. assert (E : i = 0 \/ i = 1 \/ i = 2) by lia.
+    destruct E as [->|[->| ->]]; reflexivity.
+  - intros i Hi. assert (E : i = 3 \/ i = 4 \/ i = 5).
+    { assert (Hl : ll_last (abs xp_logL) = 5) by reflexivity. rewrite Hl in Hi. lia. }
+    destruct E as [->|[->| ->]]; vm_compute; discriminate.
+Qed.
+
+Lemma sp_leader : star_leader sp_L false.
+Proof.
+  unfold star_leader. split; [reflexivity|]. split; [vm_compute; discriminate|].
+  split; [exact xp_logL_inv|]. split; [exact xp_nz|].
+  repeat (split; [reflexivity|]). vm_compute. discriminate.
+Qed.
+
+Lemma sp_start : Forall (star_start sp_L false) [sp_F2; sp_F3].
+Proof.
+  constructor; [|constructor; [|constructor]].
+  - split; [vm_compute; discriminate|]. split; [reflexivity|]. exists xp_pr_probe, 2.
+    split; [reflexivity|]. split; [left; reflexivity|]. split; [vm_compute; reflexivity|].
+    split; [vm_compute; discriminate|]. split; [reflexivity|]. split; [reflexivity|].
+    split; [vm_compute; lia|]. split; [vm_compute; discriminate|]. split; [exists 0; reflexivity|].
+    split; [reflexivity|]. split; [reflexivity|]. split; [exact xp_logF_inv|].
+    split; [reflexivity|]. split; [reflexivity|]. split; [exact xp_agree|].
+    split; [vm_compute; discriminate|]. right. vm_compute. reflexivity.
+  - split; [vm_compute; discriminate|]. split; [reflexivity|]. exists xp_pr_repl, 2.
+    split; [reflexivity|]. split; [right; reflexivity|]. split; [vm_compute; reflexivity|].
+    split; [vm_compute; discriminate|]. split; [reflexivity|]. split; [reflexivity|].
+    split; [vm_compute; lia|]. split; [vm_compute; discriminate|]. split; [exists 0; reflexivity|].
+    split; [reflexivity|]. split; [reflexivity|]. split; [exact sp_logF3_inv|].
+    split; [reflexivity|]. split; [reflexivity|]. split; [exact sp_agree3|].
+    split; [vm_compute; discriminate|]. right. vm_compute. reflexivity.
+Qed.
+
+Lemma sp_commitinv : CommitInv (last_index (r_log sp_L)) sp_L.
+Proof.
+  split; [vm_compute; discriminate|]. intros Hall. exfalso.
+  destruct (Hall 2 ltac:(left; vm_compute; auto)) as (p & Hg & Hm).
+  vm_compute in Hg. inversion Hg; subst p. vm_compute in Hm. discriminate.
+Qed.
+
+(* every hypothesis of star_commit_all holds of the example;
+   191 = (heartbeat_timeout + 2) * pair_measure_bound 5 0 + heartbeat_timeout + 1 *)
+Lemma sp_commit_applies L' Fs' :
+  star_rounds (188 + 3) sp_L [sp_F2; sp_F3] = Ok (L', Fs') ->
+  committed (r_log L') = 5 /\
+  Forall2 (fun F F' => star_done sp_L L' F F' /\ committed (r_log F') = 5) [sp_F2; sp_F3] Fs'.
+Proof.
+  intros Hrun.
+  pose proof (fun H5 H6 H7 H8 H9 H10 H11 H12 =>
+    star_commit_all sp_L [sp_F2; sp_F3] false false (mkPr 5 6 Replicate false 0 0 true (Inflights.new 256) 0 0)
+      188 3 L' Fs' sp_leader ltac:(discriminate) H5 sp_start H6 H7 H8 H9 H10 H11 sp_commitinv H12 Hrun) as X.
+  clear Hrun. apply X; clear X.
+  - repeat constructor; cbn; intuition discriminate.
+  - intros F [<-|[<-|[]]]; vm_compute; lia.
+  - reflexivity.
+  - vm_compute. discriminate.
+  - intros v [Hv|Hv]; vm_compute in Hv; cbn; intuition.
+  - reflexivity.
+  - reflexivity.
+  - vm_compute. lia.
+Qed.
+
+(* and the run does not panic (computed): everybody has the whole log and has committed it *)
+Lemma sp_run :
+  exists L' F2' F3' p2 p3,
+    star_rounds (188 + 3) sp_L [sp_F2; sp_F3] = Ok (L', [F2'; F3']) /\
+    committed (r_log L') = 5 /\
+    get_pr L' 2 = Some p2 /\ matched p2 = 5 /\ get_pr L' 3 = Some p3 /\ matched p3 = 5 /\
+    last_index (r_log F2') = 5 /\ committed (r_log F2') = 5 /\
+    last_index (r_log F3') = 5 /\ committed (r_log F3') = 5.
+Proof. vm_compute. do 5 eexists. repeat split; reflexivity. Qed.
